@@ -155,6 +155,10 @@ def run(ctx):
         ctx.violation("hdwallet-thread-stress", m.family, m.what, {"mode": "stress", "seed": ctx.seed})
     cold_start(ctx, FAMILY)
     try:
+        ctx.notes["long_scan_requests"] = hdreplay.long_scan(2600 if ctx.quick else 9000, 1100 if ctx.quick else 4400)
+    except hdreplay.Mismatch as m:
+        ctx.violation("capacity-long-scan", m.family, m.what, {"mode": "long-scan"})
+    try:
         ctx.notes["bip85_spelled_requests_compared"] = hdreplay.bip85_spellings()
     except hdreplay.Mismatch as m:
         ctx.violation("bip85-call-spellings", m.family, m.what, {"mode": "bip85-spellings"})
@@ -193,6 +197,8 @@ def replay(ctx, path):
     try:
         if rp.get("mode") == "stress":
             hdreplay.stress_threads(seconds=30, seed=rp.get("seed", 0))
+        elif rp.get("mode") == "long-scan":
+            hdreplay.long_scan(9000, 4400)
         elif rp.get("mode") == "bip85-spellings":
             hdreplay.bip85_spellings()
         elif rp.get("mode") == "twins":
